@@ -1,19 +1,33 @@
 //! C15 - encrypted integers: bootstrap, word operations and bit surgery match u32 (engines E1 + E2).
+//!
+//! Families (one instance per backend and parameter set):
+//!   pack            encrypt / decrypt / documented bit layout of FheUint and FheUintPrepared, every boundary word x u8/u16/u32
+//!   bits            get_bit_glwe / get_bit_lwe at every bit index, get_byte at every byte
+//!   splice          splice_u8 / splice_u16 at every (dst, src), zero_byte, sext from every byte
+//!   wordops         all provided word operations on a grid of boundary pairs, through real circuit bootstrapping
+//!   shifts          sll/srl/sra for every shift amount 0..63 (and high-bit aliases)
+//!   swap/select/retrieve/retriever/blind_rotation/ggsw_rotation   (c15b.rs)
+//!   cbt             circuit bootstrapping, constant and exponent mode, every GGSW cell decrypted (c15b.rs)
+//!   debug_prepare   FheUintPreparedDebug::prepare + noise at every (row, col) (c15b.rs)
+//!   prepare_custom  partial preparation for every (start, length), four entry points (c15b.rs)
+//!   programs        explicit-state search over short programs of word operations + re-preparation (c15p.rs)
 
 use crate::uctx::*;
 use poulpy_bin_fhe::bdd_arithmetic::{
-    Add, And, FheUint, FheUintPrepare, FheUintPrepared, Identity, Or, Sll, Slt, Sltu, Sra, Srl, Sub, Xor,
+    Add, And, FheUint, FheUintPrepare, FheUintPrepared, FheUintPreparedEncryptSk, FheUintPreparedFactory, GetGGSWBit, Identity,
+    Or, ScratchTakeBDD, Sll, Slt, Sltu, Sra, Srl, Sub, Xor,
 };
-use poulpy_core::layouts::{GLWEToRef, LWEInfos};
+use poulpy_core::layouts::{GLWE, GLWEToMut, GLWEToRef, LWEInfos};
 use poulpy_core::{EncryptionLayout, ScratchTakeCore};
 use poulpy_hal::api::{ScratchOwnedAlloc, ScratchOwnedBorrow};
-use poulpy_hal::layouts::{DeviceBuf, Module, Scratch, ScratchOwned};
+use poulpy_hal::layouts::{DataView, DeviceBuf, Module, Scratch, ScratchOwned, ZnxViewMut};
 use poulpy_hal::source::Source;
-use pvc_common::{Bk, CoreAll, FFT64Ref, HalAll};
+use pvc_common::{Bk, CoreAll, FFT64Avx, FFT64Ref, HalAll, NTT120Avx, NTT120Ref, host_has_avx};
 use pvc_engine::rng::{Rng, garbage};
-use pvc_engine::{Rec, Run, fnv, guarded};
+use pvc_engine::{Rec, Run, Tier, fnv, guarded};
 use serde::{Deserialize, Serialize};
 use serde_json::{Value, json};
+use std::sync::Arc;
 
 // ---------------------------------------------------------------------------------------------
 // R10: plain word semantics
@@ -73,6 +87,116 @@ impl WOp {
 }
 
 // ---------------------------------------------------------------------------------------------
+// value alphabets
+// ---------------------------------------------------------------------------------------------
+
+/// The 24-element boundary set of u32 words, most important first (the quick tier takes a prefix).
+pub fn boundary_u32(seed: u64) -> Vec<u32> {
+    let mut r = Rng::new(seed, 0xB0);
+    vec![
+        0,
+        1,
+        0x8000_0000,
+        0xFFFF_FFFF,
+        0x5555_5555,
+        0xAAAA_AAAA,
+        31,
+        32,
+        33,
+        0x7FFF_FFFF,
+        1 << 16,
+        63,
+        2,
+        5,
+        0x8000_0001,
+        1 << 7,
+        1 << 8,
+        1 << 15,
+        1 << 24,
+        1 << 30,
+        0xFFFF_0000,
+        0x00FF_FF00,
+        0xFFFF_FFFE,
+        r.next() as u32,
+    ]
+}
+
+/// boundary words of a narrower type: truncations of the u32 set, de-duplicated, plus the type's own extremes
+pub fn boundary_for(bits: usize, seed: u64) -> Vec<u64> {
+    let mask = if bits == 32 { 0xFFFF_FFFFu64 } else { (1u64 << bits) - 1 };
+    let mut out: Vec<u64> = vec![];
+    let mut push = |x: u64| {
+        let x = x & mask;
+        if !out.contains(&x) {
+            out.push(x);
+        }
+    };
+    push(0);
+    push(1);
+    push(1 << (bits - 1));
+    push(mask);
+    push(0x5555_5555);
+    push(0xAAAA_AAAA);
+    push(mask >> 1);
+    for w in boundary_u32(seed) {
+        push(w as u64);
+    }
+    for i in 0..bits {
+        push(1 << i);
+    }
+    out
+}
+
+// ---------------------------------------------------------------------------------------------
+// contexts
+// ---------------------------------------------------------------------------------------------
+
+/// key sets of one backend, by parameter set
+pub struct Pool<B: Bk> {
+    pub ctxs: Vec<Arc<Ctx<B>>>,
+}
+
+impl<B: Bk> Pool<B>
+where
+    Module<B>: HalAll<B> + CoreAll<B> + UintAll<B>,
+    Scratch<B>: ScratchTakeCore<B>,
+    ScratchOwned<B>: ScratchOwnedAlloc<B> + ScratchOwnedBorrow<B>,
+{
+    pub fn new(ps: &[Params]) -> Self {
+        Pool {
+            ctxs: ps.iter().map(|p| Arc::new(Ctx::<B>::new(*p))).collect(),
+        }
+    }
+    pub fn get(&self, p: &Params) -> &Arc<Ctx<B>> {
+        self.ctxs.iter().find(|c| c.p == *p).expect("no key set for this parameter set")
+    }
+}
+
+/// parameter sets: the suite's with N_glwe = 128 (smallest degree that admits the suite's n_lwe = 77 unchanged) is the
+/// primary one; N = 256 is the suite's own; N = 64 / 32 need a smaller LWE dimension (the library requires n_lwe <= N_glwe)
+pub fn params_primary() -> Params {
+    Params::suite(128)
+}
+pub fn params_suite256() -> Params {
+    Params::suite(256)
+}
+/// the primary set without the intermediate rank-reduction key (ks_glwe = None)
+pub fn params_direct_ks() -> Params {
+    let mut p = Params::suite(128);
+    p.direct_ks = true;
+    p
+}
+pub fn params_small(n: u32) -> Params {
+    let mut p = Params::suite(n);
+    p.n_lwe = match n {
+        64 => 56,
+        32 => 28,
+        _ => 77,
+    };
+    p
+}
+
+// ---------------------------------------------------------------------------------------------
 // pipeline pieces
 // ---------------------------------------------------------------------------------------------
 
@@ -84,7 +208,33 @@ pub fn garbage_scratch<B: Bk>(bytes: usize, which: usize) -> ScratchOwned<B> {
     s
 }
 
-/// fresh packed encryption of `w` (encryption randomness from `seed`)
+/// a generous arena (the suite's density), garbage-filled
+pub fn arena<B: Bk>(ctx: &Ctx<B>, which: usize) -> ScratchOwned<B> {
+    garbage_scratch::<B>(scratch_bytes(ctx.p.n_glwe), which)
+}
+
+/// raw bytes of a ciphertext (to pre-fill result buffers with garbage)
+pub fn glwe_bytes_mut<G: GLWEToMut>(ct: &mut G) -> &mut [u8] {
+    let mut g = ct.to_mut();
+    let raw: &mut [i64] = g.data_mut().raw_mut();
+    let (p, l) = (raw.as_mut_ptr(), raw.len());
+    // SAFETY: plain reinterpretation of the ciphertext's own i64 buffer as bytes; lifetime tied to `ct`
+    unsafe { std::slice::from_raw_parts_mut(p as *mut u8, l * 8) }
+}
+
+pub fn alloc_word<B: Bk, T: Word>(ctx: &Ctx<B>, which: usize) -> FheUint<Vec<u8>, T> {
+    let mut ct: FheUint<Vec<u8>, T> = FheUint::alloc_from_infos(&ctx.p.glwe_infos());
+    garbage(glwe_bytes_mut(&mut ct), which);
+    ct
+}
+
+pub fn alloc_glwe<B: Bk>(ctx: &Ctx<B>, which: usize) -> GLWE<Vec<u8>> {
+    let mut ct: GLWE<Vec<u8>> = GLWE::alloc_from_infos(&ctx.p.glwe_infos());
+    garbage(glwe_bytes_mut(&mut ct), which);
+    ct
+}
+
+/// fresh packed encryption of `w` (encryption randomness from `seed`), exact companion scratch
 pub fn encrypt_word<B: Bk, T: Word>(ctx: &Ctx<B>, w: T, seed: u64) -> FheUint<Vec<u8>, T>
 where
     Module<B>: HalAll<B> + CoreAll<B> + UintAll<B>,
@@ -96,103 +246,165 @@ where
     let mut r = Rng::new(seed, 0xE1);
     let mut xe = Source::new(r.seed32());
     let mut xa = Source::new(r.seed32());
-    let mut ct: FheUint<Vec<u8>, T> = FheUint::alloc_from_infos(&infos);
-    garbage(ct_bytes_mut(&mut ct), 0);
-    let mut s = garbage_scratch::<B>(ct.encrypt_sk_tmp_bytes(&ctx.module) + 64, 0);
+    let mut ct = alloc_word::<B, T>(ctx, 0);
+    let mut s = garbage_scratch::<B>(ct.encrypt_sk_tmp_bytes(&ctx.module), (seed & 1) as usize);
     ct.encrypt_sk(&ctx.module, w, &ctx.sk_prep, &enc, &mut xe, &mut xa, B::borrow(&mut s));
     ct
 }
 
-/// raw bytes of a packed ciphertext (to pre-fill result buffers with garbage)
-pub fn ct_bytes_mut<T: Word>(ct: &mut FheUint<Vec<u8>, T>) -> &mut [u8] {
-    use poulpy_core::layouts::GLWEToMut;
-    use poulpy_hal::layouts::ZnxViewMut;
-    let mut g = ct.to_mut();
-    let raw: &mut [i64] = g.data_mut().raw_mut();
-    let (p, l) = (raw.as_mut_ptr(), raw.len());
-    // SAFETY: plain reinterpretation of the ciphertext's own i64 buffer as bytes; lifetime tied to `ct`
-    unsafe { std::slice::from_raw_parts_mut(p as *mut u8, l * 8) }
-}
-
 /// exact phase read-out of a packed word
-pub fn read_ct<B: Bk, T: Word, G: GLWEToRef>(ctx: &Ctx<B>, ct: &G) -> WordRead {
+pub fn read_ct<B: Bk, G: GLWEToRef>(ctx: &Ctx<B>, ct: &G, word_bits: usize) -> WordRead {
     let g = ct.to_ref();
     let (ph, bits) = glwe_phase(g.data(), g.base2k().as_usize(), &ctx.sk_clear);
-    read_word(&ph, bits, T::bits())
+    read_word(&ph, bits, word_bits)
 }
 
-pub fn run(_run: &mut Run) {
-    probe::<FFT64Ref>(_run);
+/// direct (bootstrapping-free) encryption of every bit as GGSW, with a given GGSW layout
+pub fn encrypt_prepared<B: Bk, T: Word>(ctx: &Ctx<B>, w: T, k: u32, dnum: u32, seed: u64) -> Prep<B, T>
+where
+    Module<B>: HalAll<B> + CoreAll<B> + UintAll<B> + FheUintPreparedFactory<T, B> + FheUintPreparedEncryptSk<T, B>,
+    Scratch<B>: ScratchTakeCore<B>,
+    ScratchOwned<B>: ScratchOwnedAlloc<B> + ScratchOwnedBorrow<B>,
+{
+    let infos = ctx.p.ggsw_infos_with(k, dnum);
+    let enc = EncryptionLayout::new_from_default_sigma(infos).expect("ggsw encryption layout");
+    let mut r = Rng::new(seed, 0xE2);
+    let mut xe = Source::new(r.seed32());
+    let mut xa = Source::new(r.seed32());
+    let mut p: Prep<B, T> = FheUintPrepared::alloc_from_infos(&ctx.module, &infos);
+    let mut s = arena::<B>(ctx, (seed & 1) as usize);
+    p.encrypt_sk(&ctx.module, w, &ctx.sk_prep, &enc, &mut xe, &mut xa, B::borrow(&mut s));
+    p
 }
 
-fn probe<B: Bk>(run: &mut Run)
+pub fn prepare_bytes<B: Bk>(ctx: &Ctx<B>, threads: usize) -> usize
 where
     Module<B>: HalAll<B> + CoreAll<B> + UintAll<B>,
     Scratch<B>: ScratchTakeCore<B>,
     ScratchOwned<B>: ScratchOwnedAlloc<B> + ScratchOwnedBorrow<B>,
 {
-    for (n, n_lwe) in [(32u32, 28u32), (64, 63), (64, 56), (128, 77), (256, 77)] {
-        let mut p = Params::suite(n);
-        p.n_lwe = n_lwe;
-        let ctx = match guarded(|| Ctx::<B>::new(p)) {
-            Ok(c) => c,
-            Err(e) => {
-                eprintln!("N={n} n_lwe={n_lwe}: keygen panics: {e}");
-                continue;
+    threads.max(1)
+        * ctx.module.fhe_uint_prepare_tmp_bytes(
+            ctx.p.block_size as usize,
+            1,
+            &ctx.p.ggsw_infos(),
+            &ctx.p.glwe_infos(),
+            &ctx.key,
+        )
+}
+
+/// full preparation through circuit bootstrapping (the real pipeline), with the documented scratch size
+pub fn prepare_word<B: Bk, T: Word>(ctx: &Ctx<B>, ct: &FheUint<Vec<u8>, T>, which: usize) -> Result<Prep<B, T>, String>
+where
+    Module<B>: HalAll<B> + CoreAll<B> + UintAll<B> + FheUintPreparedFactory<T, B>,
+    Scratch<B>: ScratchTakeCore<B>,
+    ScratchOwned<B>: ScratchOwnedAlloc<B> + ScratchOwnedBorrow<B>,
+{
+    let mut p: Prep<B, T> = FheUintPrepared::alloc_from_infos(&ctx.module, &ctx.p.ggsw_infos());
+    let mut s = garbage_scratch::<B>(prepare_bytes::<B>(ctx, 1), which);
+    guarded(|| p.prepare(&ctx.module, ct, &ctx.key, B::borrow(&mut s)))?;
+    Ok(p)
+}
+
+/// What the bits of a prepared word do when used as CMux selectors (the defining use of a prepared bit):
+/// for every bit i, cmux(ONE, ZERO, bit_i) on noiseless constants.
+pub struct PrepObs {
+    /// word assembled from coefficient 0 of every CMux output (scale 1/4)
+    pub value: u64,
+    /// (bit, what) for outputs that are not 0 or 1/4 at coefficient 0 or not 0 elsewhere
+    pub bad: Vec<(usize, String)>,
+    pub max_rel: f64,
+    /// per bit: every byte of the prepared GGSW is zero
+    pub zero_bytes: Vec<bool>,
+    /// per bit: the CMux output phase is exactly zero at every coefficient
+    pub exact_zero_out: Vec<bool>,
+}
+
+pub fn observe_prepared<B: Bk, T: Word, D: poulpy_hal::layouts::DataRef>(
+    ctx: &Ctx<B>,
+    p: &FheUintPrepared<D, T, B>,
+    scratch: &mut Scratch<B>,
+) -> Result<PrepObs, String>
+where
+    Module<B>: HalAll<B> + CoreAll<B> + UintAll<B>,
+    Scratch<B>: ScratchTakeCore<B>,
+    ScratchOwned<B>: ScratchOwnedAlloc<B> + ScratchOwnedBorrow<B>,
+{
+    use poulpy_bin_fhe::bdd_arithmetic::Cmux;
+    let infos = ctx.p.glwe_infos();
+    let b = ctx.p.base2k as usize;
+    let zero: GLWE<Vec<u8>> = GLWE::alloc_from_infos(&infos);
+    let mut one: GLWE<Vec<u8>> = GLWE::alloc_from_infos(&infos);
+    // noiseless constant 1/4: limb 0 of the body holds 2^(b-2) at coefficient 0
+    one.data_mut().at_mut(0, 0)[0] = 1i64 << (b - 2);
+    let mut o = PrepObs {
+        value: 0,
+        bad: vec![],
+        max_rel: 0.0,
+        zero_bytes: vec![],
+        exact_zero_out: vec![],
+    };
+    for i in 0..T::bits() {
+        let bit = p.get_bit(i);
+        o.zero_bytes.push(bit.data().data().iter().all(|x| *x == 0));
+        let mut res = alloc_glwe::<B>(ctx, i & 1);
+        guarded(|| ctx.module.cmux(&mut res, &one, &zero, &bit, scratch)).map_err(|e| format!("cmux on bit {i}: {e}"))?;
+        let (ph, bits) = glwe_phase(res.data(), b, &ctx.sk_clear);
+        o.exact_zero_out.push(ph.iter().all(|x| *x == 0));
+        for (c, &x) in ph.iter().enumerate() {
+            let (q, rel) = round_at(x, bits, 2);
+            let q = q.rem_euclid(4);
+            o.max_rel = o.max_rel.max(rel.abs());
+            if c == 0 {
+                match q {
+                    0 => {}
+                    1 => o.value |= 1 << i,
+                    other => o.bad.push((i, format!("selects {other}/4 at coefficient 0"))),
+                }
+            } else if q != 0 {
+                o.bad.push((i, format!("coefficient {c} selects {q}/4")));
             }
-        };
-        eprintln!("N={n} keygen {:.2}s", ctx.keygen_s);
-        let ggsw = ctx.p.ggsw_infos();
-        let glwe = ctx.p.glwe_infos();
-        let a = 0xDEADBEEFu32;
-        let b = 0x12345678u32;
-        let t = std::time::Instant::now();
-        let ca = encrypt_word::<B, u32>(&ctx, a, 1);
-        let cb = encrypt_word::<B, u32>(&ctx, b, 2);
-        let ra = read_ct::<B, u32, _>(&ctx, &ca);
-        eprintln!("  enc {:.4}s read {:#x} rel {:.3} stray {}", t.elapsed().as_secs_f64(), ra.value, ra.max_rel, ra.stray.len());
-        let t = std::time::Instant::now();
-        let mut pa: Prep<B, u32> = FheUintPrepared::alloc_from_infos(&ctx.module, &ggsw);
-        let mut pb: Prep<B, u32> = FheUintPrepared::alloc_from_infos(&ctx.module, &ggsw);
-        let bytes = ctx.module.fhe_uint_prepare_tmp_bytes(ctx.p.block_size as usize, 1, &pa, &ca, &ctx.key);
-        let mut s = garbage_scratch::<B>(bytes + 64, 0);
-        let r = guarded(|| {
-            pa.prepare(&ctx.module, &ca, &ctx.key, B::borrow(&mut s));
-            pb.prepare(&ctx.module, &cb, &ctx.key, B::borrow(&mut s));
-        });
-        eprintln!("  prepare x2 {:.4}s {:?}", t.elapsed().as_secs_f64(), r);
-        if r.is_err() {
-            continue;
-        }
-        for op in ALL_WOPS {
-            let t = std::time::Instant::now();
-            let mut res: FheUint<Vec<u8>, u32> = FheUint::alloc_from_infos(&glwe);
-            let bytes = res.add_tmp_bytes(&ctx.module, &glwe, &ggsw, &ctx.key);
-            let mut s = garbage_scratch::<B>(bytes + 64, 0);
-            let r = guarded(|| apply_op::<B>(&ctx, op, &mut res, &pa, &pb, 1, B::borrow(&mut s)));
-            let rd = read_ct::<B, u32, _>(&ctx, &res);
-            eprintln!(
-                "  {:<8} {:.4}s {:?} got {:#x} want {:#x} rel {:.3} stray {}",
-                op.name(),
-                t.elapsed().as_secs_f64(),
-                r,
-                rd.value,
-                op.plain(a, b),
-                rd.max_rel,
-                rd.stray.len()
-            );
         }
     }
-    let _ = run;
+    Ok(o)
+}
+
+/// per-op scratch: the op's own companion query (identity has none: the largest of the others)
+pub fn op_bytes<B: Bk>(ctx: &Ctx<B>, op: WOp, threads: usize) -> usize
+where
+    Module<B>: HalAll<B> + CoreAll<B> + UintAll<B>,
+    Scratch<B>: ScratchTakeCore<B>,
+    ScratchOwned<B>: ScratchOwnedAlloc<B> + ScratchOwnedBorrow<B>,
+{
+    let res: FheUint<Vec<u8>, u32> = FheUint::alloc_from_infos(&ctx.p.glwe_infos());
+    let (m, gl, gg, k) = (&ctx.module, &ctx.p.glwe_infos(), &ctx.p.ggsw_infos(), &ctx.key);
+    macro_rules! q {
+        ($st:ident, $mt:ident) => {
+            if threads <= 1 { res.$st(m, gl, gg, k) } else { res.$mt(m, threads, gl, gg, k) }
+        };
+    }
+    match op {
+        WOp::Add => q!(add_tmp_bytes, add_multi_thread_tmp_bytes),
+        WOp::Sub => q!(sub_tmp_bytes, sub_multi_thread_tmp_bytes),
+        WOp::Sll => q!(sll_tmp_bytes, sll_multi_thread_tmp_bytes),
+        WOp::Srl => q!(srl_tmp_bytes, srl_multi_thread_tmp_bytes),
+        WOp::Sra => q!(sra_tmp_bytes, sra_multi_thread_tmp_bytes),
+        WOp::Slt => q!(slt_tmp_bytes, slt_multi_thread_tmp_bytes),
+        WOp::Sltu => q!(sltu_tmp_bytes, sltu_multi_thread_tmp_bytes),
+        WOp::And => q!(and_tmp_bytes, and_multi_thread_tmp_bytes),
+        WOp::Or => q!(or_tmp_bytes, or_multi_thread_tmp_bytes),
+        WOp::Xor => q!(xor_tmp_bytes, xor_multi_thread_tmp_bytes),
+        WOp::Identity => ALL_WOPS.iter().filter(|o| **o != WOp::Identity).map(|o| op_bytes::<B>(ctx, *o, threads)).max().unwrap(),
+    }
 }
 
 /// the real call of one word operation (threads = 1 -> single-thread entry point, else the _multi_thread one)
-pub fn apply_op<B: Bk>(
+pub fn apply_op<B: Bk, DA: poulpy_hal::layouts::DataRef, DB: poulpy_hal::layouts::DataRef>(
     ctx: &Ctx<B>,
     op: WOp,
     res: &mut FheUint<Vec<u8>, u32>,
-    a: &Prep<B, u32>,
-    b: &Prep<B, u32>,
+    a: &FheUintPrepared<DA, u32, B>,
+    b: &FheUintPrepared<DB, u32, B>,
     threads: usize,
     scratch: &mut Scratch<B>,
 ) where
@@ -224,8 +436,530 @@ pub fn apply_op<B: Bk>(
     }
 }
 
-pub fn replay(_run: &mut Run, _d: &Value) {
-    let _ = (fnv(b""), json!({}));
-    let _: Option<Rec> = None;
-    panic!("C15: not implemented yet");
+/// top-level failure descriptor: op/backend/kind/case/inner + classification fields
+pub fn desc<C: Serialize>(op: &str, backend: &str, kind: &str, c: &C, inner: Value, extra: Value) -> Value {
+    let mut d = json!({"op": op, "backend": backend, "kind": kind, "case": c, "inner": inner});
+    if let (Value::Object(m), Value::Object(e)) = (&mut d, extra) {
+        for (k, v) in e {
+            m.insert(k, v);
+        }
+    }
+    d
+}
+
+/// compares a packed result with the expected word: value, stray coefficients, non-binary slots
+pub fn judge_word(r: &WordRead, want: u64) -> Option<(&'static str, Value)> {
+    if !r.non_binary.is_empty() {
+        return Some(("wrong_value", json!({"non_binary_slots": r.non_binary, "got": r.value, "want": want})));
+    }
+    if r.value != want {
+        return Some(("wrong_value", json!({"got": r.value, "want": want, "xor": r.value ^ want})));
+    }
+    if !r.stray.is_empty() {
+        let s: Vec<_> = r.stray.iter().take(8).collect();
+        return Some(("stray_coefficient", json!({"stray": s, "stray_count": r.stray.len(), "got": r.value, "want": want})));
+    }
+    None
+}
+
+pub static NOISE_PACKED: MaxF64 = MaxF64::new();
+pub static NOISE_PREPARED: MaxF64 = MaxF64::new();
+
+// ---------------------------------------------------------------------------------------------
+// family pack
+// ---------------------------------------------------------------------------------------------
+
+#[derive(Clone, Debug, Serialize, Deserialize)]
+pub struct PackCase {
+    pub backend: String,
+    pub p: Params,
+    pub width: String,
+    pub word: u64,
+}
+
+fn exec_pack_t<B: Bk, T: Word>(ctx: &Ctx<B>, c: &PackCase, seed: u64, rec: &mut Rec)
+where
+    Module<B>: HalAll<B> + CoreAll<B> + UintAll<B> + FheUintPreparedFactory<T, B> + FheUintPreparedEncryptSk<T, B>,
+    Scratch<B>: ScratchTakeCore<B> + ScratchTakeBDD<T, B>,
+    ScratchOwned<B>: ScratchOwnedAlloc<B> + ScratchOwnedBorrow<B>,
+{
+    let h = fnv(format!("{c:?}").as_bytes());
+    let w = T::from_u64(c.word);
+    rec.distinct(h);
+    rec.sample(|| serde_json::to_value(c).unwrap());
+    let fail = |rec: &mut Rec, op: &str, kind: &str, extra: Value| {
+        rec.fail(desc(op, B::NAME, kind, c, json!({}), extra));
+    };
+    // 1. encrypt, read the exact phase by the documented layout
+    let ct = match guarded(|| encrypt_word::<B, T>(ctx, w, seed ^ h)) {
+        Ok(ct) => ct,
+        Err(e) => return fail(rec, "encrypt_sk", "panic", json!({"panic": e})),
+    };
+    rec.evals(1);
+    let rd = read_ct(ctx, &ct, T::bits());
+    NOISE_PACKED.update(rd.max_rel);
+    rec.outcome(rd.value);
+    if let Some((kind, extra)) = judge_word(&rd, c.word) {
+        fail(rec, "encrypt_sk", kind, extra);
+    }
+    // 2. the library's own decryption, with exactly the companion scratch size
+    let mut s = garbage_scratch::<B>(ct.decrypt_tmp_bytes(&ctx.module), (h & 1) as usize);
+    match guarded(|| ct.decrypt(&ctx.module, &ctx.sk_prep, B::borrow(&mut s))) {
+        Ok(got) => {
+            rec.evals(1);
+            if got != w {
+                fail(rec, "decrypt", "wrong_value", json!({"got": got.to_u64(), "want": c.word}));
+            }
+        }
+        Err(e) => fail(rec, "decrypt", "panic", json!({"panic": e})),
+    }
+    // 3. direct GGSW encryption of every bit, observed through CMux and through the library's debug decryption
+    let mut s = arena::<B>(ctx, ((h >> 1) & 1) as usize);
+    match guarded(|| encrypt_prepared::<B, T>(ctx, w, ctx.p.k_ggsw, ctx.p.ggsw_dnum, seed ^ h)) {
+        Ok(p) => {
+            rec.evals(1);
+            match observe_prepared::<B, T, _>(ctx, &p, B::borrow(&mut s)) {
+                Ok(o) => {
+                    NOISE_PREPARED.update(o.max_rel);
+                    if o.value != c.word || !o.bad.is_empty() {
+                        fail(
+                            rec,
+                            "prepared_encrypt_sk",
+                            "wrong_value",
+                            json!({"got": o.value, "want": c.word, "bad_bits": o.bad.iter().take(8).collect::<Vec<_>>()}),
+                        );
+                    }
+                }
+                Err(e) => fail(rec, "prepared_encrypt_sk", "panic", json!({"panic": e})),
+            }
+            match guarded(|| p.decrypt(&ctx.module, &ctx.sk_prep, &ctx.key, B::borrow(&mut s))) {
+                Ok(got) => {
+                    rec.evals(1);
+                    if got != w {
+                        fail(rec, "prepared_decrypt", "wrong_value", json!({"got": got.to_u64(), "want": c.word}));
+                    }
+                }
+                Err(e) => fail(rec, "prepared_decrypt", "panic", json!({"panic": e})),
+            }
+            // from_fhe_uint_prepared must produce the documented packed layout
+            let mut back = alloc_word::<B, T>(ctx, 1);
+            match guarded(|| back.from_fhe_uint_prepared(&ctx.module, &p, &ctx.key, B::borrow(&mut s))) {
+                Ok(()) => {
+                    rec.evals(1);
+                    let rd = read_ct(ctx, &back, T::bits());
+                    NOISE_PACKED.update(rd.max_rel);
+                    if let Some((kind, extra)) = judge_word(&rd, c.word) {
+                        fail(rec, "from_fhe_uint_prepared", kind, extra);
+                    }
+                }
+                Err(e) => fail(rec, "from_fhe_uint_prepared", "panic", json!({"panic": e})),
+            }
+        }
+        Err(e) => fail(rec, "prepared_encrypt_sk", "panic", json!({"panic": e})),
+    }
+}
+
+pub fn exec_pack<B: Bk>(ctx: &Ctx<B>, c: &PackCase, seed: u64, rec: &mut Rec)
+where
+    Module<B>: HalAll<B> + CoreAll<B> + UintAll<B>,
+    Scratch<B>: ScratchTakeCore<B>,
+    ScratchOwned<B>: ScratchOwnedAlloc<B> + ScratchOwnedBorrow<B>,
+{
+    match c.width.as_str() {
+        "u8" => exec_pack_t::<B, u8>(ctx, c, seed, rec),
+        "u16" => exec_pack_t::<B, u16>(ctx, c, seed, rec),
+        "u32" => exec_pack_t::<B, u32>(ctx, c, seed, rec),
+        o => panic!("unknown width {o}"),
+    }
+}
+
+pub const WIDTHS: [(&str, usize); 3] = [("u8", 8), ("u16", 16), ("u32", 32)];
+
+fn fam_pack<B: Bk>(run: &mut Run, pool: &Pool<B>, ps: &[Params])
+where
+    Module<B>: HalAll<B> + CoreAll<B> + UintAll<B>,
+    Scratch<B>: ScratchTakeCore<B>,
+    ScratchOwned<B>: ScratchOwnedAlloc<B> + ScratchOwnedBorrow<B>,
+{
+    let seed = run.seed;
+    let mut cases = vec![];
+    for p in ps {
+        for (wname, bits) in WIDTHS {
+            for word in boundary_for(bits, seed) {
+                cases.push(PackCase {
+                    backend: B::NAME.into(),
+                    p: *p,
+                    width: wname.into(),
+                    word,
+                });
+            }
+        }
+    }
+    run.family(
+        &format!("pack/{}", B::NAME),
+        "outer = (parameter set, width u8/u16/u32, every boundary word incl. every single bit); per case: encrypt_sk -> exact phase read by the documented layout (every coefficient: bit i at ((i&7)<<LOG_BYTES|(i>>3))<<log_gap, all others 0), library decrypt with companion scratch, direct GGSW encryption of every bit observed through CMux on constants, FheUintPrepared::decrypt, from_fhe_uint_prepared layout",
+        cases,
+        |c, rec| exec_pack::<B>(pool.get(&c.p), c, seed, rec),
+    );
+}
+
+// ---------------------------------------------------------------------------------------------
+// family wordops / shifts
+// ---------------------------------------------------------------------------------------------
+
+#[derive(Clone, Debug, Serialize, Deserialize)]
+pub struct OpsCase {
+    pub backend: String,
+    pub p: Params,
+    pub a: u32,
+    pub b: u32,
+    /// 1 = single-thread entry points, >1 = *_multi_thread
+    pub threads: usize,
+    /// operations applied to this pair
+    pub ops: Vec<WOp>,
+    /// b's bits are encrypted directly as GGSW (no bootstrapping); a always goes through circuit bootstrapping
+    #[serde(default)]
+    pub b_direct: bool,
+}
+
+pub fn exec_ops<B: Bk>(ctx: &Ctx<B>, c: &OpsCase, only: Option<WOp>, seed: u64, rec: &mut Rec)
+where
+    Module<B>: HalAll<B> + CoreAll<B> + UintAll<B>,
+    Scratch<B>: ScratchTakeCore<B>,
+    ScratchOwned<B>: ScratchOwnedAlloc<B> + ScratchOwnedBorrow<B>,
+{
+    let h = fnv(format!("{c:?}").as_bytes());
+    rec.sample(|| serde_json::to_value(c).unwrap());
+    let gf = (h & 1) as usize;
+    let prep = |w: u32, tag: u64| -> Result<Prep<B, u32>, String> {
+        let ct = guarded(|| encrypt_word::<B, u32>(ctx, w, seed ^ h ^ tag))?;
+        prepare_word::<B, u32>(ctx, &ct, gf)
+    };
+    let prep_b = |w: u32| -> Result<Prep<B, u32>, String> {
+        if c.b_direct {
+            guarded(|| encrypt_prepared::<B, u32>(ctx, w, ctx.p.k_ggsw, ctx.p.ggsw_dnum, seed ^ h ^ 2))
+        } else {
+            prep(w, 2)
+        }
+    };
+    let (pa, pb) = match (prep(c.a, 1), prep_b(c.b)) {
+        (Ok(x), Ok(y)) => (x, y),
+        (Err(e), _) | (_, Err(e)) => {
+            rec.fail(desc("prepare", B::NAME, "panic", c, json!({}), json!({"panic": e})));
+            return;
+        }
+    };
+    rec.evals(2);
+    // the prepared operands themselves must select their own bits
+    let mut s = arena::<B>(ctx, gf);
+    for (name, p, w) in [("a", &pa, c.a), ("b", &pb, c.b)] {
+        match observe_prepared::<B, u32, _>(ctx, p, B::borrow(&mut s)) {
+            Ok(o) => {
+                NOISE_PREPARED.update(o.max_rel);
+                if o.value != w as u64 || !o.bad.is_empty() {
+                    rec.fail(desc(
+                        "prepare",
+                        B::NAME,
+                        "wrong_value",
+                        c,
+                        json!({"operand": name}),
+                        json!({"got": o.value, "want": w, "bad_bits": o.bad.iter().take(8).collect::<Vec<_>>()}),
+                    ));
+                    return;
+                }
+            }
+            Err(e) => {
+                rec.fail(desc("prepare", B::NAME, "panic", c, json!({"operand": name}), json!({"panic": e})));
+                return;
+            }
+        }
+    }
+    for &op in &c.ops {
+        if let Some(o) = only {
+            if o != op {
+                continue;
+            }
+        }
+        let want = op.plain(c.a, c.b);
+        let inner = json!({"wop": op});
+        let mut res = alloc_word::<B, u32>(ctx, 1 - gf);
+        let mut s = garbage_scratch::<B>(op_bytes::<B>(ctx, op, c.threads), gf);
+        let r = guarded(|| apply_op::<B, _, _>(ctx, op, &mut res, &pa, &pb, c.threads, B::borrow(&mut s)));
+        rec.evals(1);
+        rec.distinct(fnv(format!("{:?}{:?}{}{}", op, c.p, c.a, c.b).as_bytes()));
+        if let Err(e) = r {
+            rec.fail(desc(op.name(), B::NAME, "panic", c, inner, json!({"panic": e})));
+            continue;
+        }
+        let rd = read_ct(ctx, &res, 32);
+        NOISE_PACKED.update(rd.max_rel);
+        rec.outcome(rd.value ^ ((op as u64) << 40));
+        if let Some((kind, extra)) = judge_word(&rd, want as u64) {
+            rec.fail(desc(op.name(), B::NAME, kind, c, inner.clone(), extra));
+        }
+        // the library's own decryption agrees
+        let mut sd = garbage_scratch::<B>(res.decrypt_tmp_bytes(&ctx.module), gf);
+        match guarded(|| res.decrypt(&ctx.module, &ctx.sk_prep, B::borrow(&mut sd))) {
+            Ok(got) if got == want => {}
+            Ok(got) => {
+                rec.fail(desc(op.name(), B::NAME, "wrong_value", c, inner, json!({"got": got, "want": want, "via": "FheUint::decrypt"})))
+            }
+            Err(e) => rec.fail(desc("decrypt", B::NAME, "panic", c, inner, json!({"panic": e}))),
+        }
+    }
+}
+
+fn fam_wordops<B: Bk>(run: &mut Run, pool: &Pool<B>, grids: &[(Params, usize)])
+where
+    Module<B>: HalAll<B> + CoreAll<B> + UintAll<B>,
+    Scratch<B>: ScratchTakeCore<B>,
+    ScratchOwned<B>: ScratchOwnedAlloc<B> + ScratchOwnedBorrow<B>,
+{
+    let seed = run.seed;
+    let words = boundary_u32(seed);
+    let mut cases = vec![];
+    for (p, g) in grids {
+        for (i, &a) in words.iter().take(*g).enumerate() {
+            for (j, &b) in words.iter().take(*g).enumerate() {
+                cases.push(OpsCase {
+                    backend: B::NAME.into(),
+                    p: *p,
+                    a,
+                    b,
+                    // a diagonal stripe goes through the *_multi_thread entry points
+                    threads: if (i + 2 * j) % 7 == 3 { 2 + (i % 3) } else { 1 },
+                    ops: ALL_WOPS.to_vec(),
+                    b_direct: false,
+                });
+            }
+        }
+    }
+    if cases.is_empty() {
+        return;
+    }
+    run.family(
+        &format!("wordops/{}", B::NAME),
+        "outer = (parameter set, a, b) over the g x g prefix grid of the 24-word boundary set (quick g=10, thorough g=24), fresh encryption + real circuit-bootstrapping preparation of both words (each prepared bit checked through CMux); inner = all 11 word operations (add sub sll srl sra slt sltu and or xor identity), 1 in 7 pairs through the *_multi_thread entry points; oracle = Rust u32 semantics; result read from the exact phase at every coefficient (documented layout, strays) and through FheUint::decrypt",
+        cases,
+        |c, rec| exec_ops::<B>(pool.get(&c.p), c, None, seed, rec),
+    );
+}
+
+fn fam_shifts<B: Bk>(run: &mut Run, pool: &Pool<B>, ps: &[Params])
+where
+    Module<B>: HalAll<B> + CoreAll<B> + UintAll<B>,
+    Scratch<B>: ScratchTakeCore<B>,
+    ScratchOwned<B>: ScratchOwnedAlloc<B> + ScratchOwnedBorrow<B>,
+{
+    let seed = run.seed;
+    let values: Vec<u32> =
+        if is_dense(run) { vec![0x8000_0001, 0x5555_5555, 0xFFFF_FFFF, 0x7FFF_FFFE, 0xAAAA_AAAA, 1] } else { vec![0x8000_0001, 0x5555_5555] };
+    let mut cases = vec![];
+    for p in ps {
+        for &a in &values {
+            // every shift amount 0..31, the aliases 32..63, and amounts whose high bits are all set
+            let mut amounts: Vec<u32> = (0..64).collect();
+            amounts.extend((0..32).step_by(if is_dense(run) { 1 } else { 5 }).map(|s| 0xFFFF_FFE0 | s));
+            for b in amounts {
+                cases.push(OpsCase {
+                    backend: B::NAME.into(),
+                    p: *p,
+                    a,
+                    b,
+                    threads: 1,
+                    ops: vec![WOp::Sll, WOp::Srl, WOp::Sra],
+                    b_direct: true,
+                });
+            }
+        }
+    }
+    if cases.is_empty() {
+        return;
+    }
+    run.family(
+        &format!("shifts/{}", B::NAME),
+        "outer = (parameter set, value, shift amount) for EVERY amount 0..63 (32..63 alias 0..31) and amounts with all high bits set; the value is bootstrapped, the amount's bits are encrypted directly as GGSW; inner = sll, srl, sra; oracle = shift by the low 5 bits, sra sign-filling",
+        cases,
+        |c, rec| exec_ops::<B>(pool.get(&c.p), c, None, seed, rec),
+    );
+}
+
+// ---------------------------------------------------------------------------------------------
+// driver
+// ---------------------------------------------------------------------------------------------
+
+/// dense enumeration (thorough tier on the primary backend) or the quick-size one (quick tier; secondary backends)
+static DENSE: std::sync::atomic::AtomicBool = std::sync::atomic::AtomicBool::new(false);
+pub fn is_dense(run: &Run) -> bool {
+    run.tier.is_thorough() && DENSE.load(std::sync::atomic::Ordering::Relaxed)
+}
+
+pub struct Plan {
+    /// parameter sets for which a key set is generated
+    pub keysets: Vec<Params>,
+    /// parameter sets of the cheap structural families (pack, bits, splice, select ...)
+    pub structural: Vec<Params>,
+    /// (parameter set, grid size) of the word-operation grid
+    pub grids: Vec<(Params, usize)>,
+    pub shifts: Vec<Params>,
+    /// (parameter set, depth, initial register pairs)
+    pub programs: Vec<(Params, usize, Vec<(u32, u32)>)>,
+    /// key-switching variants (no intermediate rank-reduction key): only the families that extract LWE bits
+    pub ks_variants: Vec<Params>,
+}
+
+pub fn plan(tier: Tier, primary_backend: bool, slow_backend: bool) -> Plan {
+    let p128 = params_primary();
+    let p256 = params_suite256();
+    let p64 = params_small(64);
+    let p32 = params_small(32);
+    let pdk = params_direct_ks();
+    match (tier, primary_backend) {
+        (Tier::Quick, true) => Plan {
+            keysets: vec![p128, p32, pdk],
+            structural: vec![p128, p32],
+            grids: vec![(p128, 10), (p32, 4), (pdk, 3)],
+            shifts: vec![p128],
+            programs: vec![(p128, 2, vec![(0xAAAA_AAAA, 0x8000_0015)])],
+            ks_variants: vec![pdk],
+        },
+        (Tier::Quick, false) => Plan {
+            keysets: vec![],
+            structural: vec![],
+            grids: vec![],
+            shifts: vec![],
+            programs: vec![],
+            ks_variants: vec![],
+        },
+        (Tier::Thorough, true) => Plan {
+            keysets: vec![p128, p256, p64, p32, pdk],
+            structural: vec![p128, p256, p64, p32],
+            grids: vec![(p128, 24), (p256, 24), (p64, 12), (p32, 12), (pdk, 8)],
+            shifts: vec![p128, p256],
+            programs: vec![(p128, 3, vec![(0xAAAA_AAAA, 0x8000_0015), (1, 0xFFFF_FFFF)]), (p256, 2, vec![(0x7FFF_FFFF, 33)])],
+            ks_variants: vec![pdk],
+        },
+        // secondary backends: the quick-size enumeration of every family at the primary parameter set (the NTT120
+        // backends are about ten times slower per operation: smaller grid, programs of depth 1)
+        (Tier::Thorough, false) => Plan {
+            keysets: vec![p128],
+            structural: vec![p128],
+            grids: vec![(p128, if slow_backend { 6 } else { 12 })],
+            shifts: vec![],
+            programs: vec![(p128, if slow_backend { 1 } else { 2 }, vec![(0xAAAA_AAAA, 0x8000_0015)])],
+            ks_variants: vec![],
+        },
+    }
+}
+
+fn run_backend<B: Bk>(run: &mut Run, primary: bool)
+where
+    Module<B>: HalAll<B> + CoreAll<B> + UintAll<B>,
+    Scratch<B>: ScratchTakeCore<B>,
+    ScratchOwned<B>: ScratchOwnedAlloc<B> + ScratchOwnedBorrow<B>,
+    Ctx<B>: Send + Sync,
+    crate::c15p::PState<B>: Send + Sync,
+{
+    let pl = plan(run.tier, primary, B::FAMILY == pvc_common::Family::Ntt120);
+    if pl.keysets.is_empty() {
+        return;
+    }
+    DENSE.store(primary, std::sync::atomic::Ordering::Relaxed);
+    let t0 = std::time::Instant::now();
+    let pool = Pool::<B>::new(&pl.keysets);
+    run.note(
+        &format!("keygen_s/{}", B::NAME),
+        json!({"total": (t0.elapsed().as_secs_f64()*1000.0).round()/1000.0, "sets": pl.keysets.iter().map(|p| (p.n_glwe, p.n_lwe)).collect::<Vec<_>>()}),
+    );
+    fam_pack::<B>(run, &pool, &pl.structural);
+    let mut lwe_sets = pl.structural.clone();
+    lwe_sets.extend(pl.ks_variants.iter());
+    crate::c15b::fam_bits::<B>(run, &pool, &lwe_sets);
+    crate::c15b::fam_splice::<B>(run, &pool, &pl.structural);
+    crate::c15b::fam_swap::<B>(run, &pool, &pl.structural);
+    crate::c15b::fam_select::<B>(run, &pool, &pl.structural);
+    crate::c15b::fam_rotation::<B>(run, &pool, &pl.structural);
+    crate::c15b::fam_cbt::<B>(run, &pool, &lwe_sets);
+    crate::c15b::fam_debug::<B>(run, &pool, &lwe_sets);
+    crate::c15b::fam_prepare_custom::<B>(run, &pool, &pl.structural);
+    fam_wordops::<B>(run, &pool, &pl.grids);
+    fam_shifts::<B>(run, &pool, &pl.shifts);
+    crate::c15p::fam_programs::<B>(run, &pool, &pl.programs);
+}
+
+pub fn run(run: &mut Run) {
+    run.assume("parameter set = the library test suite's (base2k 13, k_glwe 26, k_ggsw 39 / dnum 2, rank 2, BRK/ATK/TSK k=52, ks_glwe k=20, ks_lwe k=16, block-binary LWE secret of block size 7, ternary GLWE secret) with the GLWE degree N as the only variable (plus one variant of the primary set without the intermediate rank-reduction key: ks_glwe = None, ks_lwe from rank 2); n_lwe = 77 for N >= 128 and 56 / 28 for N = 64 / 32 because the library asserts n_lwe <= N");
+    run.assume("every noise statement is a decision statement: a phase coefficient must round to the stated multiple of the encoding scale (1/4 for word bits, the gadget unit for GGSW cells); the observed worst margin is reported in the notes, not asserted");
+    run.assume("circuit bootstrapping cases respect the LUT resolution the parameters admit: N / (2^(log_domain+1) * next_pow2(dnum)) >= ceil((hw+1)/2) + 2 rotation positions per half segment, hw = n_lwe / block_size (worst-case rounding of the LWE ciphertext to 2N positions plus input noise); result GGSW layouts have dnum < size; exponent mode is exercised for log_gap_out in 0..=log N - log_domain (the last value is the no-repacking branch)");
+    run.assume("scratch arenas: the operation's own *_tmp_bytes companion where one exists (encrypt, decrypt, prepare, word operations), otherwise the suite's arena density (2^22 bytes at N=256); all arenas and result buffers are pre-filled with a NaN / large-pattern garbage");
+    run.note(
+        "n_glwe_calibration",
+        json!({
+            "determined": "2026-09-25, FFT64Ref, whole pipeline encrypt -> prepare (circuit bootstrapping) -> all 11 word operations -> decrypt on (0xDEADBEEF, 0x12345678)",
+            "results": [
+                {"n_glwe": 32, "n_lwe": 28, "correct": true, "note": "n_lwe must be <= N (assert in glwe_to_lwe_key encryption), so the suite's 77 does not fit"},
+                {"n_glwe": 64, "n_lwe": 56, "correct": true},
+                {"n_glwe": 64, "n_lwe": 63, "correct": true},
+                {"n_glwe": 128, "n_lwe": 77, "correct": true, "note": "smallest degree with the suite's parameters otherwise unchanged: primary set"},
+                {"n_glwe": 256, "n_lwe": 77, "correct": true, "note": "the suite's own"}
+            ],
+            "smallest_correct": 32,
+            "primary": 128,
+            "cost_ms_at_128": {"prepare_one_word": 60, "add": 22, "and": 3.5}
+        }),
+    );
+    run_backend::<FFT64Ref>(run, true);
+    run_backend::<NTT120Ref>(run, false);
+    if host_has_avx() {
+        run_backend::<FFT64Avx>(run, false);
+        run_backend::<NTT120Avx>(run, false);
+    } else {
+        run.note("avx", json!("host lacks AVX2/FMA: AVX backends skipped"));
+    }
+    run.note(
+        "noise_margin",
+        json!({
+            "packed_word_worst_error_relative_to_threshold": NOISE_PACKED.get(),
+            "prepared_bit_cmux_worst_error_relative_to_threshold": NOISE_PREPARED.get(),
+            "ggsw_cell_worst_error_relative_to_half_gadget_unit": crate::c15b::NOISE_CELL.get(),
+        }),
+    );
+}
+
+pub fn replay(run: &mut Run, d: &Value) {
+    let backend = d["backend"].as_str().or_else(|| d["case"]["backend"].as_str()).unwrap_or("").to_string();
+    match backend.as_str() {
+        "fft64-ref" => replay_b::<FFT64Ref>(run, d),
+        "ntt120-ref" => replay_b::<NTT120Ref>(run, d),
+        "fft64-avx" => replay_b::<FFT64Avx>(run, d),
+        "ntt120-avx" => replay_b::<NTT120Avx>(run, d),
+        o => panic!("unknown backend {o}"),
+    }
+}
+
+fn replay_b<B: Bk>(run: &mut Run, d: &Value)
+where
+    Module<B>: HalAll<B> + CoreAll<B> + UintAll<B>,
+    Scratch<B>: ScratchTakeCore<B>,
+    ScratchOwned<B>: ScratchOwnedAlloc<B> + ScratchOwnedBorrow<B>,
+{
+    let fam = d["family"].as_str().unwrap_or("").to_string();
+    let seed = d["seed"].as_u64().unwrap_or(0);
+    let p: Params = serde_json::from_value(d["case"]["p"].clone()).expect("case.p");
+    let pool = Pool::<B>::new(&[p]);
+    let ctx = pool.get(&p).clone();
+    let case = d["case"].clone();
+    let inner = d.get("inner").cloned().unwrap_or(json!({}));
+    if fam.starts_with("pack/") {
+        let c: PackCase = serde_json::from_value(case).unwrap();
+        run.single(&fam, "replay", |rec| exec_pack::<B>(&ctx, &c, seed, rec));
+    } else if fam.starts_with("wordops/") || fam.starts_with("shifts/") {
+        let c: OpsCase = serde_json::from_value(case).unwrap();
+        let only: Option<WOp> = inner.get("wop").and_then(|w| serde_json::from_value(w.clone()).ok());
+        run.single(&fam, "replay", |rec| exec_ops::<B>(&ctx, &c, only, seed, rec));
+    } else if fam.starts_with("programs/") {
+        crate::c15p::replay::<B>(run, &fam, &ctx, d);
+    } else {
+        crate::c15b::replay::<B>(run, &fam, &ctx, d, seed);
+    }
 }
